@@ -89,6 +89,16 @@ BAD = {
 }
 
 
+STUCK = []      # rejected assignments that left something behind: flushed into the report by common.Report.finish
+
+
+def poke_report(obj, rng, p, context):
+    msg = poke(obj, rng, p)
+    if msg:
+        STUCK.append(dict(what="%s: %s" % (type(obj).__name__, msg), context=context))
+    return msg
+
+
 def poke(obj, rng, p=0.5):
     """Rejected assignments: each is expected to raise; whatever happens, the attribute must afterwards hold what it held
     before (a failed assignment that sticks changes later results).  Returns a description of what stuck, or None."""
